@@ -627,6 +627,12 @@ def run_int(ctx, cfg, start, end):
         with quiet():
             v = np.atleast_1d(np.asarray(ref.eval(x), dtype=float)).reshape(-1)
         return v * weight(x) if weight else v
+    if any(float(e_) == float(s_) for s_, e_ in zip(start, end)):
+        # degenerate box: the integral of any function over it is 0
+        val = np.atleast_1d(np.asarray(val, dtype=float)).reshape(-1)
+        ctx.check("B.int.analytic" if spec["mode"] == "analytic" else "B.int.numeric", bool(np.all(np.abs(val) <= 1e-12)), site, "value-degenerate-box-" + dcl + tag,
+                  "%s over the degenerate box %s..%s: library %s, the integral is 0" % (cfg["name"], start, end, val))
+        return
     q, qa, err = reference_integral(integrand, start, end, spec["breaks"])
     scale = float(np.max(qa))
     if err > 1e-7 * scale:
@@ -717,6 +723,12 @@ def run(ctx):
             if quick and spec["nmax"] == 0:
                 continue
             boxes = [random_box(rng, spec["lo"], spec["hi"], cfg["special"]) for _ in range(n)]
+            if spec["mode"] == "analytic":
+                # a box of zero extent in one dimension (the degenerate member of "every box"): the integral is 0 (missed seed C12_a: volume / extent)
+                s0, e0 = random_box(rng, spec["lo"], spec["hi"], cfg["special"])
+                k0 = rng.randrange(cfg["d"])
+                e0[k0] = s0[k0]
+                boxes.append((s0, e0))
         for (s, e) in boxes:
             if ctx.out_of_time(0.45):
                 ctx.note("integral part cut short by the time budget")
